@@ -470,6 +470,7 @@ def rule_range_safety(ctx: Ctx, rule: str) -> None:
            witness="`<=` would drop the legal one-character range [a-a]")
     from . import seqrules
     seqrules.rule_sequence_epilogue(ctx, rule, which={'empty-class-replacements'})
+    seqrules.rule_scan_loops(ctx, rule, which={'range-end-cleared-by-posix'})
     ar, ur = repo.const(WP, 'ASCII_RANGE'), repo.const(WP, 'UNICODE_RANGE')
     pa = rx.parse('[' + ar + ']')
     pu = rx.parse('[' + ur + ']')
